@@ -1072,6 +1072,12 @@ class FuncEmitter(object):
                 else:
                     cargs.append(s)
             expr = '%s(%s)' % (name, ', '.join(cargs))
+            if name == 'malloc' and ins.dst is not None and args[0].k == 'int':
+                ty = self.first_cast.get(ins.dst)
+                sz = E.sizeof(ty) if ty is not None and ty.k not in ('void', 'func', 'opaque') else None
+                if sz and sz[0] > 0 and args[0].a % sz[0] == 0 and args[0].a > 0 and not (ty.k == 'int' and ty.a == 8):
+                    kk = args[0].a // sz[0]
+                    expr = '(%s*)malloc(sizeof(%s)%s)' % (E.ct(ty), E.ct(ty), '' if kk == 1 else ' * %d' % kk)
             if rt.k != 'void':
                 expr = '((%s)%s)' % (E.ct(rt), expr)
         if not done and expr is None and name and name.startswith('nondet_') and rt.k != 'void' and ins.dst is not None:
